@@ -12,7 +12,13 @@ REPO = os.environ.get("VERIF_REPO", "/repo")
 
 
 def allowed():
-    return json.load(open(os.path.join(REPO, "mjml/components/allowed-css-attributes.json")))
+    t = json.load(open(os.path.join(REPO, "mjml/components/allowed-css-attributes.json")))
+    if "mj-wrapper" not in t and "mj-section" in t:
+        # mj-wrapper has no entry in the validation table, yet resolves the box attributes of a section
+        t["mj-wrapper"] = {a: v for a, v in t["mj-section"].items() if a in (
+            "background-color", "border", "border-bottom", "border-left", "border-right", "border-top", "border-radius",
+            "padding", "padding-bottom", "padding-left", "padding-right", "padding-top", "text-align")}
+    return t
 
 
 COLORS = ["#ff0000", "#00ff00", "#123456", "red", "#abc", "transparent", "rgb(1,2,3)"]
